@@ -153,12 +153,17 @@ pub enum End {
     BadJump,
     SelfDestruct(u64),
     SelfDestructSelf,
+    /// RETURN / REVERT of `n` bytes 0xab (n <= 96)
+    ReturnN(u64),
+    RevertN(u64),
+    /// RETURN of the memory region (offset, length): what the frame's memory looks like at the end
+    ReturnMem(u64, u64),
 }
 impl End {
     pub fn tag(self) -> &'static str {
         match self {
-            End::Stop | End::Return => "S",
-            End::Revert => "R",
+            End::Stop | End::Return | End::ReturnN(_) | End::ReturnMem(_, _) => "S",
+            End::Revert | End::RevertN(_) => "R",
             End::Invalid | End::Underflow | End::BadJump => "H",
             End::SelfDestruct(_) | End::SelfDestructSelf => "D",
         }
@@ -181,6 +186,17 @@ pub enum It {
     /// CREATE / CREATE2 of an initcode of at most 32 bytes
     Create { salt: Option<u64>, init: Vec<u8>, value: u64 },
     Gas,
+    /// MSTORE `words` words of the repeated byte from offset `from`
+    Fill { from: u64, words: u64, byte: u8 },
+    /// enter body `body` with the output window (out_off, out_len); the flag goes to memory 0xe0 and, when `rds`,
+    /// RETURNDATASIZE to 0xc0
+    CallWin { kind: Kind, body: usize, out_off: u64, out_len: u64, rds: bool },
+    /// call-family `op` to any address with input memory[0, in_len) and the output window; flag / size as `CallWin`
+    CallAddrWin { op: u8, to: u64, gas: u64, in_len: u64, out_off: u64, out_len: u64, rds: bool },
+    /// RETURNDATACOPY(dest, off, RETURNDATASIZE - off + extra)
+    RetCopy { dest: u64, off: u64, extra: u64 },
+    /// RETURNDATASIZE to memory 0xc0
+    RetSize,
 }
 
 #[derive(Clone, Debug, Default)]
@@ -296,6 +312,54 @@ pub fn compile(s: &Script, twin: u64) -> Vec<u8> {
                     a.op(0x5a);
                     observe(&mut a, k, &mut nobs, false);
                 }
+                It::Fill { from, words, byte } => {
+                    for i in 0..*words {
+                        a.push(U256::from_be_bytes([*byte; 32])).push_u(from + 32 * i).op(0x52);
+                    }
+                }
+                It::CallWin { kind, body, out_off, out_len, rds } => {
+                    a.push_u(*out_len).push_u(*out_off).push_u(*body as u64).push_u(0);
+                    if matches!(kind, Kind::CallSelf | Kind::CallCode | Kind::CallOther) {
+                        a.push_u(0);
+                    }
+                    if *kind == Kind::CallSelf {
+                        a.op(0x30);
+                    } else {
+                        a.push_u(twin);
+                    }
+                    a.push_u(100_000);
+                    a.op(match kind {
+                        Kind::CallSelf | Kind::CallOther => 0xf1,
+                        Kind::CallCode => 0xf2,
+                        Kind::Delegate => 0xf4,
+                        Kind::Static => 0xfa,
+                    });
+                    a.push_u(0xe0).op(0x52);
+                    if *rds {
+                        a.op(0x3d).push_u(0xc0).op(0x52);
+                    }
+                }
+                It::CallAddrWin { op, to, gas, in_len, out_off, out_len, rds } => {
+                    a.push_u(*out_len).push_u(*out_off).push_u(*in_len).push_u(0);
+                    if *op == 0xf1 || *op == 0xf2 {
+                        a.push_u(0);
+                    }
+                    a.push_u(*to).push_u(*gas).op(*op);
+                    a.push_u(0xe0).op(0x52);
+                    if *rds {
+                        a.op(0x3d).push_u(0xc0).op(0x52);
+                    }
+                }
+                It::RetCopy { dest, off, extra } => {
+                    a.push_u(*off).op(0x3d).op(0x03);
+                    if *extra > 0 {
+                        a.push_u(*extra).op(0x01);
+                    }
+                    a.push_u(*off).push_u(*dest).op(0x3e);
+                }
+                It::RetSize => {
+                    a.op(0x3d).push_u(0xc0).op(0x52);
+                }
             }
         }
         match end {
@@ -324,6 +388,15 @@ pub fn compile(s: &Script, twin: u64) -> Vec<u8> {
             }
             End::SelfDestructSelf => {
                 a.op(0x30).op(0xff);
+            }
+            End::ReturnN(n) | End::RevertN(n) => {
+                for i in 0..(*n + 31) / 32 {
+                    a.push(U256::from_be_bytes([0xab; 32])).push_u(32 * i).op(0x52);
+                }
+                a.push_u(*n).push_u(0).op(if matches!(end, End::ReturnN(_)) { 0xf3 } else { 0xfd });
+            }
+            End::ReturnMem(off, len) => {
+                a.push_u(*len).push_u(*off).op(0xf3);
             }
         }
     }
@@ -811,6 +884,140 @@ fn xframe_gas(out: &mut Out, w: &mut Vec<Case>, big: bool) {
     }
 }
 
+/// The output window of a call: the parent's memory around and inside [out_off, out_off + out_len) is 0xff before the
+/// call; the callee returns / reverts with fewer, as many or more bytes (0xab) than the window, halts, has no code, or
+/// is a precompile; only min(out_len, returned) bytes of the window may change. The parent returns the flag,
+/// RETURNDATASIZE and the whole region 0x100..0x1a0. Also RETURNDATACOPY into the same region afterwards, and CREATE
+/// (return data but no window).
+pub fn window_script(kind: Kind, out_off: u64, out_len: u64, callee: End, rds: bool, copy: Option<(u64, u64, u64)>) -> Script {
+    let mut b0 = vec![
+        It::Fill { from: 0x100, words: 5, byte: 0xff },
+        It::CallWin { kind, body: 1, out_off, out_len, rds },
+    ];
+    if let Some((dest, off, extra)) = copy {
+        b0.push(It::RetCopy { dest, off, extra });
+    }
+    Script { bodies: vec![(b0, End::ReturnMem(0xc0, 0xe0)), (vec![], callee)], quiet: true }
+}
+
+fn return_window(out: &mut Out, w: &mut Vec<Case>, big: bool) {
+    let specs: &[SpecId] = if big {
+        &[SpecId::FRONTIER, SpecId::HOMESTEAD, SpecId::BYZANTIUM, SpecId::ISTANBUL, SpecId::BERLIN, SpecId::CANCUN, SpecId::PRAGUE]
+    } else {
+        &[SpecId::HOMESTEAD, SpecId::BYZANTIUM, SpecId::PRAGUE]
+    };
+    let lens = [1u64, 31, 32, 33, 64];
+    for spec in specs {
+        let byz = SpecId::enabled(*spec, SpecId::BYZANTIUM);
+        let offs: &[u64] = if big { &[0x120, 0x121, 0x13f] } else { &[0x121] };
+        // a callee with code, entered every way
+        for kind in [Kind::CallSelf, Kind::Delegate, Kind::CallCode, Kind::CallOther, Kind::Static] {
+            if (kind == Kind::Static && !byz) || (kind == Kind::Delegate && !SpecId::enabled(*spec, SpecId::HOMESTEAD)) {
+                continue;
+            }
+            for out_len in lens {
+                let mut rets = vec![0u64, 1, out_len - 1, out_len, out_len + 1];
+                rets.sort();
+                rets.dedup();
+                for ret in rets {
+                    for revert in [false, true] {
+                        if revert && !byz {
+                            continue;
+                        }
+                        for off in offs {
+                            let callee = if revert { End::RevertN(ret) } else { End::ReturnN(ret) };
+                            let sc = window_script(kind, *off, out_len, callee, byz, None);
+                            w.push(script_case(*spec, &sc, vec![], vec![], 0, 300_000));
+                            out.count("boundary-return-window-code");
+                        }
+                    }
+                }
+                // halting callee, callee that stops without data
+                for callee in [End::Invalid, End::Stop] {
+                    let sc = window_script(kind, 0x120, out_len, callee, byz, None);
+                    w.push(script_case(*spec, &sc, vec![], vec![], 0, 300_000));
+                    out.count("boundary-return-window-code");
+                }
+                // RETURNDATACOPY afterwards: whole buffer next to / over the window, one byte too many
+                if byz && (big || matches!(out_len, 1 | 32 | 33)) {
+                    for (ret, copy) in [(out_len - 1, (0x160u64, 0u64, 0u64)), (out_len + 1, (0x121, 1, 0)), (1, (0x120, 0, 0)), (out_len, (0x160, 0, 1)), (0, (0x160, 0, 0))] {
+                        for revert in [false, true] {
+                            let callee = if revert { End::RevertN(ret) } else { End::ReturnN(ret) };
+                            let sc = window_script(kind, 0x120, out_len, callee, true, Some(copy));
+                            w.push(script_case(*spec, &sc, vec![], vec![], 0, 300_000));
+                            out.count("boundary-return-window-returndatacopy");
+                        }
+                    }
+                }
+            }
+        }
+        // precompiles (identity with an input shorter / longer than the window, SHA-256, RIPEMD-160, out of gas),
+        // accounts without code (existing, absent)
+        for op in [0xf1u8, 0xf2, 0xf4, 0xfa] {
+            if (op == 0xfa && !byz) || (op == 0xf4 && !SpecId::enabled(*spec, SpecId::HOMESTEAD)) {
+                continue;
+            }
+            if !big && (op == 0xf2 || (op == 0xf4 && byz)) {
+                continue;
+            }
+            for out_len in lens {
+                let mut targets: Vec<(u64, u64, u64)> = vec![];
+                let mut ins = vec![0u64, 1, out_len - 1, out_len, out_len + 1];
+                ins.sort();
+                ins.dedup();
+                for in_len in ins {
+                    targets.push((4, 50_000, in_len));
+                }
+                targets.extend([(2, 50_000, 3), (3, 50_000, 3), (4, 1, 40), (2, 1, 3), (0xe0b, 50_000, 4), (0xdead, 50_000, 4)]);
+                for (to, gas, in_len) in targets {
+                    let sc = Script {
+                        bodies: vec![(
+                            vec![
+                                It::Fill { from: 0, words: 3, byte: 0xab },
+                                It::Fill { from: 0x100, words: 5, byte: 0xff },
+                                It::CallAddrWin { op, to, gas, in_len, out_off: 0x121, out_len, rds: byz },
+                            ],
+                            End::ReturnMem(0xc0, 0xe0),
+                        )],
+                        quiet: true,
+                    };
+                    let mut c = script_case(*spec, &sc, vec![], vec![], 0, 300_000);
+                    c.accts.push(Acct { addr: a_n(0xe0b), balance: U256::from(1u64), ..Default::default() });
+                    w.push(c);
+                    out.count("boundary-return-window-precompile-or-no-code");
+                }
+            }
+        }
+        // CREATE / CREATE2: return data of a reverting initcode, no window; then RETURNDATACOPY into the region
+        for salt in [None, Some(3u64)] {
+            if salt.is_some() && !SpecId::enabled(*spec, SpecId::PETERSBURG) {
+                continue;
+            }
+            for n in [0u64, 1, 32] {
+                for (ei, end) in [0xfdu8, 0xf3, 0xfe].into_iter().enumerate() {
+                    let init = code(|a| {
+                        a.push_u(0xab).push_u(0).op(0x53);
+                        if end != 0xfe {
+                            a.push_u(n).push_u(0);
+                        }
+                        a.op(end);
+                    });
+                    let mut b0 = vec![It::Fill { from: 0x100, words: 5, byte: 0xff }, It::Create { salt, init, value: 0 }];
+                    if byz {
+                        b0.push(It::RetSize);
+                        if ei == 0 {
+                            b0.push(It::RetCopy { dest: 0x121, off: 0, extra: 0 });
+                        }
+                    }
+                    let sc = Script { bodies: vec![(b0, End::ReturnMem(0xc0, 0xe0))], quiet: true };
+                    w.push(script_case(*spec, &sc, vec![], vec![], 0, 400_000));
+                    out.count("boundary-return-window-create");
+                }
+            }
+        }
+    }
+}
+
 /// every opcode byte once, with 17 small operands below it; the word on top of the stack afterwards is returned
 fn opcode_sweep(out: &mut Out, w: &mut Vec<Case>, big: bool) {
     let specs: &[SpecId] = if big {
@@ -1072,7 +1279,9 @@ fn floor_refund_family(out: &mut Out, w: &mut Vec<Case>, big: bool) {
                     let raw = (if end == 0xf3 { 4800 * n } else { 0 }) + 12_500 * existing;
                     let mut points: std::collections::BTreeSet<u64> = [0u64, 1, 200, 1300].into_iter().collect();
                     let (lo, hi) = if big { (6, 7) } else { (2, 3) };
-                    points.extend(floor_points(21_000 + 25_000 * nauth, exec, raw, gas_limit, end == 0xfe, lo, hi));
+                    points.extend(
+                        floor_points(21_000 + 25_000 * nauth, exec, raw, gas_limit, end == 0xfe, lo, hi).into_iter().filter(|p| big || *p <= 1600),
+                    );
                     for nz in points {
                         let mut t = call_tx(&c, Some(A), gas_limit, 0, vec![0x11; nz as usize]);
                         if !list.is_empty() {
@@ -1763,6 +1972,7 @@ pub fn boundary(out: &mut Out, big: bool) -> Vec<Case> {
         xframe_other(out, &mut w, big);
         xframe_gas(out, &mut w, big);
         opcode_sweep(out, &mut w, big);
+        return_window(out, &mut w, big);
         blob_family(out, &mut w, big);
         eip7702_refund_family(out, &mut w, big);
         floor_refund_family(out, &mut w, big);
@@ -1827,7 +2037,7 @@ pub fn family_of(tag: &str) -> &'static str {
         "eip7702-transactions"
     } else if has("precompile") || has("ripemd") {
         "precompiles"
-    } else if has("depth") || has("stipend") || has("gas-forwarding") || has("call-context") || has("xframe-gas") || has("xframe-logs") || has("xframe-value") || has("plain-transfers") {
+    } else if has("depth") || has("stipend") || has("gas-forwarding") || has("call-context") || has("return-window") || has("xframe-gas") || has("xframe-logs") || has("xframe-value") || has("plain-transfers") {
         "nested-calls"
     } else if has("codesize") || has("ef-prefix") || has("deposit") || has("limits") || has("create-nonce") || has("tx-create") || has("xframe-create") || has("initcode") {
         "creates"
